@@ -179,7 +179,7 @@ def verus_with_retry(unit, rlimit, repo=None):
         return r
     # the second attempt gets a generous but finite wall budget: a semantic failure usually shows at once, and a
     # mutated loop body can keep Z3 busy for a long time at 4x rlimit
-    budget = max(300, int(10 * r.get("wall_s", 30)))
+    budget = max(180, int(4 * r.get("wall_s", 30)))
     r2 = run_verus_unit(unit, rlimit * 4, False, repo, extra=["--smt-option", "smt.random_seed=17"], timeout=budget)
     if r2["status"] == "undecided" and r2.get("reason") == "verus timeout" and r["status"] == "fail":
         r["retried"] = True
